@@ -263,6 +263,8 @@ class SigWorld(HistoryWorld):
 
     def _call(self, st, sigs):
         clean = [{'node_id_short': s['node_id_short'], 'signature': s['signature']} for s in sigs]
+        if len(clean) % 2:
+            return call(check_block_signatures, nodes=list(st.nodes), signatures=clean, blk=st.blk)     # keyword spelling
         return call(check_block_signatures, list(st.nodes), clean, st.blk)
 
     def op_check(self, st, op, ctx):
@@ -668,7 +670,10 @@ class ProofWorld(HistoryWorld):
             self._after_reject(st, op, ctx, 'generic', dk)
             return
         model = self._to_model(cells)
-        ok, res = call(check_proof, cells[0], expected)
+        if op['enc_seed'] & 2:
+            ok, res = call(check_proof, cell=cells[0], hash_=expected)      # the keyword spelling of the same call
+        else:
+            ok, res = call(check_proof, cells[0], expected)
         verdict, reason = None, ''
         if model is not None:
             try:
@@ -724,7 +729,10 @@ class ProofWorld(HistoryWorld):
             return
         model = self._to_model(cells)
         store = random.Random(op['enc_seed']).random() < 0.5
-        ok, res = call(check_block_header_proof, cells[0][0], expected, store)
+        if op['enc_seed'] & 2:
+            ok, res = call(check_block_header_proof, root_cell=cells[0][0], block_hash=expected, store_state_hash=store)
+        else:
+            ok, res = call(check_block_header_proof, cells[0][0], expected, store)
         verdict, reason = None, ''
         if model is not None:
             try:
@@ -880,7 +888,10 @@ class ProofWorld(HistoryWorld):
             return
         # what the client itself parses (to judge) - the library call below parses the same bytes again
         cells, err = self._client_parse(data, ctx)
-        ok, res = call(check_account_proof, data, blk, address, claimed_lib, bool(op['enc_seed'] & 1))
+        if op['enc_seed'] & 2:
+            ok, res = call(check_account_proof, proof=data, shrd_blk=blk, address=address, account_state_root=claimed_lib, return_account_descr=bool(op['enc_seed'] & 1))
+        else:
+            ok, res = call(check_account_proof, data, blk, address, claimed_lib, bool(op['enc_seed'] & 1))
         if cells is None:
             if ok:
                 self.V(ctx, 'forged-proof-accepted', 'account', 'unparseable', 'check_account_proof accepted bytes that Cell.from_boc rejects')
